@@ -486,4 +486,535 @@ Proof.
     eapply majority_mono; [|exact M]. intros x X. unfold acked in *. cbn [existsb acks]. apply orb_true_iff. right. exact X.
 Qed.
 
+
+Lemma fappend_shape g km t prev cnt pt :
+  inv g ->
+  prev_term (logs g km) prev = Some pt -> prev_term (logs g (KLead t)) prev = Some pt ->
+  let l' := fappend (logs g km) prev (firstn cnt (skipn prev (logs g (KLead t)))) in
+  l' = logs g km \/ (exists q, l' = firstn q (logs g (KLead t))).
+Proof. intros I P1 P2. exact (fappend_result g km t prev cnt pt I P1 P2). Qed.
+
+Lemma pres_follower_append s m t prev cnt pt :
+  SInv s ->
+  (tm s m <= t)%N -> active (sg s) t = true ->
+  prev_term (nlog s m) prev = Some pt -> prev_term (L s t) prev = Some pt ->
+  SInv (mkS (mkG (upd (logs (sg s)) (KNode m) (fappend (nlog s m) prev (firstn cnt (skipn prev (L s t))))) (active (sg s)))
+            (updN (tm s) m t) (votes s) (acks s) (updN (acc s) m (t :: acc s m)) (ldr s) (commits s)).
+Proof.
+  intros I Hm Ha P1 P2.
+  assert (GE : forall n, (tm s n <= updN (tm s) m t n)%N) by (intros n; apply updN_ge; exact Hm).
+  set (l' := fappend (nlog s m) prev (firstn cnt (skipn prev (L s t)))).
+  assert (G : gstep (sg s) (mkG (upd (logs (sg s)) (KNode m) l') (active (sg s)))).
+  { unfold l', nlog, L. eapply FollowerAppend; eassumption. }
+  assert (SH : l' = nlog s m \/ exists q, l' = firstn q (L s t)).
+  { unfold l', nlog, L. apply (fappend_shape (sg s) (KNode m) t prev cnt pt (i1 s I) P1 P2). }
+  (* leadership logs are untouched *)
+  assert (LL : forall t', upd (logs (sg s)) (KNode m) l' (KLead t') = L s t') by (intros; apply upd_other; discriminate).
+  assert (NL : forall n, n <> m -> upd (logs (sg s)) (KNode m) l' (KNode n) = nlog s n)
+    by (intros n NE; apply upd_other; congruence).
+  assert (ML : upd (logs (sg s)) (KNode m) l' (KNode m) = l') by apply upd_same.
+  constructor; unfold L, nlog in *; cbn [sg tm votes acks acc ldr commits logs active].
+  - eapply inv_step; [exact (i1 s I)|exact G].
+  - intros k. destruct k as [n|t']; cbn [kbound tm].
+    + destruct (N.eq_dec n m) as [->|NE].
+      * rewrite ML, updN_same. destruct SH as [E|[q E]]; rewrite E.
+        -- destruct (i2 s I (KNode m)) as [M B]. split; [exact M|]. eapply bounded_le; [exact Hm|exact B].
+        -- destruct (i2 s I (KLead t)) as [M B]. split; [apply mono_firstn; exact M|apply bounded_firstn; exact B].
+      * rewrite (NL n NE), (updN_other _ _ _ _ NE). exact (i2 s I (KNode n)).
+    + rewrite LL. exact (i2 s I (KLead t')).
+  - intros t' c H. destruct (i3a s I _ _ H) as (A & M & T). repeat split; auto. specialize (GE c). lia.
+  - exact (i3b s I).
+  - intros r H. destruct (i4 s I r H) as [A B]. pose proof (GE (vr_voter r)). pose proof (GE (vr_cand r)). split; lia.
+  - exact (i5 s I).
+  - intros r H T A. destruct (N.eq_dec (vr_cand r) m) as [E|NE].
+    + exfalso. rewrite E, updN_same in T. rewrite <- T in A. congruence.
+    + rewrite (NL _ NE). rewrite (updN_other _ _ _ _ NE) in T. exact (i6 s I r H T A).
+  - intros r H LD. rewrite LL. exact (i7 s I r H LD).
+  - intros r H. destruct (i8 s I r H) as (A & B & C). refine (conj _ (conj _ C)).
+    + intros i e Hi. unfold L; cbn [sg logs active]. rewrite LL. exact (A i e Hi).
+    + intros i e Hi. unfold L; cbn [sg logs active]. rewrite LL. exact (B i e Hi).
+  - intros m' t' k H. destruct (i9 s I _ _ _ H) as (A & B & C). rewrite LL. repeat split; auto. specialize (GE m'). lia.
+  - intros m' t' k i H LK P. rewrite LL.
+    destruct (N.eq_dec m' m) as [->|NE].
+    + rewrite ML. rewrite updN_same in P.
+      destruct (i9 s I _ _ _ H) as (TT & AT & KL). unfold L, nlog in *.
+      assert (OLD : agree (S i) (logs (sg s) (KNode m)) (logs (sg s) (KLead t'))).
+      { apply (i10 s I m t' k i H LK). intros s' IN LT. specialize (P s' (or_intror IN) LT). rewrite !LL in P. exact P. }
+      assert (LEN : (S i <= length (logs (sg s) (KNode m)))%nat).
+      { apply agree_sym in OLD. apply (agree_len _ _ _ OLD). lia. }
+      assert (AT2 : agree (S i) (logs (sg s) (KLead t)) (logs (sg s) (KLead t'))).
+      { destruct (N.eq_dec t t') as [->|NT]; [apply agree_refl|].
+        assert (LT : (t' < t)%N) by lia. specialize (P t (or_introl eq_refl) LT). rewrite !LL in P. exact P. }
+      unfold l'. apply (fappend_keeps (sg s) (KNode m) t prev cnt pt _ i (i1 s I) P1 P2 OLD AT2 LEN).
+    + rewrite (NL _ NE). rewrite (updN_other _ _ _ _ NE) in P.
+      apply (i10 s I m' t' k i H LK). intros s' IN LT. specialize (P s' IN LT). rewrite !LL in P. exact P.
+  - intros r m' t' k i H HA EM LT LK P. rewrite LL.
+    apply (i11 s I r m' t' k i H HA EM LT LK). intros s' AS L1 L2. specialize (P s' AS L1 L2). rewrite !LL in P. exact P.
+  - intros n s' H. destruct (N.eq_dec n m) as [->|NE].
+    + rewrite updN_same in H. rewrite updN_same. destruct H as [E|H]; [subst; split; [exact Ha|lia]|].
+      destruct (i12 s I _ _ H) as [A B]. split; [exact A|lia].
+    + rewrite (updN_other _ _ _ _ NE) in H. rewrite (updN_other _ _ _ _ NE). exact (i12 s I _ _ H).
+  - intros i e t' H. destruct (i13 s I _ _ _ H) as (A & B & C & M & D). rewrite LL. repeat split; auto;
+    try (intros s' AS LT; rewrite LL; exact (D s' AS LT)).
+Qed.
+
+
+Lemma pres_leader_append s c t x :
+  SInv s ->
+  tm s c = t -> ldr s t = Some c -> active (sg s) t = true -> nlog s c = L s t ->
+  SInv (mkS (mkG (upd (upd (logs (sg s)) (KLead t) (L s t ++ [(t, x)])) (KNode c) (L s t ++ [(t, x)])) (active (sg s)))
+            (tm s) (votes s) (acks s) (acc s) (ldr s) (commits s)).
+Proof.
+  intros I Hc Hl Ha Hn.
+  set (l := L s t ++ [(t, x)]).
+  set (lg := upd (upd (logs (sg s)) (KLead t) l) (KNode c) l).
+  assert (G : gstep (sg s) (mkG lg (active (sg s)))).
+  { pose proof (LeaderAppend (sg s) c t x Ha Hn) as G. cbn zeta in G. exact G. }
+  assert (LT : lg (KLead t) = l) by (unfold lg; rewrite upd_other by discriminate; apply upd_same).
+  assert (LO : forall t', t' <> t -> lg (KLead t') = L s t').
+  { intros t' NE. unfold lg. rewrite upd_other by discriminate. rewrite upd_other by congruence. reflexivity. }
+  assert (NC : lg (KNode c) = l) by (unfold lg; apply upd_same).
+  assert (NO : forall n, n <> c -> lg (KNode n) = nlog s n).
+  { intros n NE. unfold lg. rewrite upd_other by congruence. rewrite upd_other by discriminate. reflexivity. }
+  assert (B2 : bounded t (L s t)) by exact (proj2 (i2 s I (KLead t))).
+  assert (M2 : mono (L s t)) by exact (proj1 (i2 s I (KLead t))).
+  (* agreement with a leadership log is stable when that log, or the other side, grows *)
+  assert (GROW : forall t' a i, agree (S i) a (L s t') -> (S i <= length (L s t'))%nat -> agree (S i) a (lg (KLead t'))).
+  { intros t' a i A LEN. destruct (N.eq_dec t' t) as [->|NE]; [|rewrite (LO _ NE); exact A].
+    rewrite LT. unfold l. apply agree_app_r; assumption. }
+  (* the reverse: agreement stated in the new state gives agreement in the old one *)
+  assert (BACK : forall s' t0 i, (t0 < s')%N -> (S i <= length (L s t0))%nat ->
+            agree (S i) (lg (KLead s')) (lg (KLead t0)) -> agree (S i) (L s s') (L s t0)).
+  { intros s' t0 i LT0 LEN A.
+    assert (E0 : agree (S i) (lg (KLead t0)) (L s t0)).
+    { destruct (N.eq_dec t0 t) as [->|NE]; [rewrite LT; unfold l; apply agree_app_l; exact LEN|rewrite (LO _ NE); apply agree_refl]. }
+    assert (A' : agree (S i) (lg (KLead s')) (L s t0)) by (eapply agree_trans; eassumption).
+    destruct (N.eq_dec s' t) as [->|NE]; [|rewrite (LO _ NE) in A'; exact A'].
+    rewrite LT in A'. unfold l in A'.
+    destruct (agree_snoc_inv i (L s t) t x (L s t0) t0 A' (proj2 (i2 s I (KLead t0))) LT0 LEN) as [R _]. exact R. }
+  constructor; unfold L, nlog; cbn [sg tm votes acks acc ldr commits logs active]; fold lg.
+  - eapply inv_step; [exact (i1 s I)|exact G].
+  - intros k. destruct k as [n|t']; cbn [kbound tm].
+    + destruct (N.eq_dec n c) as [->|NE].
+      * rewrite NC. unfold l. rewrite Hc. split; [apply mono_app_last; assumption|apply bounded_app_last; exact B2].
+      * rewrite (NO n NE). exact (i2 s I (KNode n)).
+    + destruct (N.eq_dec t' t) as [->|NE].
+      * rewrite LT. unfold l. split; [apply mono_app_last; assumption|apply bounded_app_last; exact B2].
+      * rewrite (LO t' NE). exact (i2 s I (KLead t')).
+  - exact (i3a s I).
+  - exact (i3b s I).
+  - exact (i4 s I).
+  - exact (i5 s I).
+  - intros r H T A. destruct (N.eq_dec (vr_cand r) c) as [E|NE].
+    + exfalso. rewrite E in T. rewrite <- T, Hc in A. congruence.
+    + rewrite (NO _ NE). exact (i6 s I r H T A).
+  - intros r H LD. destruct (i7 s I r H LD) as [A B]. unfold L; cbn [sg logs]; fold lg.
+    destruct (N.eq_dec (vr_term r) t) as [E|NE].
+    + rewrite E in *. rewrite LT. unfold l. split; [apply agree_app_r; assumption|rewrite app_length; lia].
+    + rewrite (LO _ NE). split; assumption.
+  - intros r H. destruct (i8 s I r H) as (A & B & C). refine (conj _ (conj _ C)).
+    + intros i e Hi. destruct (A i e Hi) as [A1 A2]. unfold L; cbn [sg logs active]; fold lg. split; [exact A1|].
+      apply GROW; [exact A2|]. apply (agree_len _ _ _ A2). apply nth_error_Some_lt in Hi. lia.
+    + intros i e Hi. destruct (B i e Hi) as [A1 A2]. unfold L; cbn [sg logs active]; fold lg. split; [exact A1|].
+      apply GROW; [exact A2|]. apply (agree_len _ _ _ A2). apply nth_error_Some_lt in Hi. lia.
+  - intros m t' k H. destruct (i9 s I _ _ _ H) as (A & B & C). unfold L; cbn [sg logs]; fold lg. repeat split; auto.
+    destruct (N.eq_dec t' t) as [->|NE]; [rewrite LT; unfold l; rewrite app_length; unfold L in *; cbn [length]; lia|rewrite (LO _ NE); exact C].
+  - intros m t0 k i H LK P. unfold L, nlog in *; cbn [sg logs] in *; fold lg in P |- *.
+    destruct (i9 s I _ _ _ H) as (TT & AT & KL). unfold L in KL.
+    assert (LEN : (S i <= length (logs (sg s) (KLead t0)))%nat) by lia.
+    assert (OLD : agree (S i) (logs (sg s) (KNode m)) (logs (sg s) (KLead t0))).
+    { apply (i10 s I m t0 k i H LK). intros s' IN LT0. apply BACK; [exact LT0|exact LEN|]. exact (P s' IN LT0). }
+    destruct (N.eq_dec m c) as [->|NE].
+    + rewrite NC. apply GROW; [|exact LEN]. unfold l. apply agree_grow_l; [|exact LEN].
+      unfold nlog in Hn. rewrite <- Hn. exact OLD.
+    + rewrite (NO _ NE). apply GROW; [exact OLD|exact LEN].
+  - intros r m t0 k i H HA EM LT0 LK P. unfold L in *; cbn [sg logs active] in *; fold lg in P |- *.
+    destruct (i9 s I _ _ _ HA) as (TT & AT & KL). unfold L in KL.
+    assert (LEN : (S i <= length (logs (sg s) (KLead t0)))%nat) by lia.
+    apply GROW; [|exact LEN].
+    apply (i11 s I r m t0 k i H HA EM LT0 LK). intros s' AS L1 L2. apply BACK; [exact L1|exact LEN|]. exact (P s' AS L1 L2).
+  - exact (i12 s I).
+  - intros i e t0 H. destruct (i13 s I _ _ _ H) as (A & B & C & M & D).
+    unfold L in *; cbn [sg logs active] in *; fold lg.
+    assert (LEN : (S i <= length (logs (sg s) (KLead t0)))%nat) by (apply nth_error_Some_lt in B; lia).
+    refine (conj A (conj _ (conj C (conj M _)))).
+    + destruct (N.eq_dec t0 t) as [->|NE]; [|rewrite (LO _ NE); exact B].
+      rewrite LT. unfold l. rewrite nth_error_app1 by (apply nth_error_Some_lt in B; exact B). exact B.
+    + intros s' AS LT0. specialize (D s' AS LT0).
+      apply GROW; [|exact LEN].
+      destruct (N.eq_dec s' t) as [->|NE]; [|rewrite (LO _ NE); exact D].
+      rewrite LT. unfold l. apply agree_grow_l; assumption.
+Qed.
+
+
+(* ---------- the heart of Leader Completeness ---------- *)
+
+(* a frozen log satisfying the log invariant, whose last term is at least the term t0 of a
+   committed entry at position i (and which is long enough when that term is exactly t0),
+   contains the committed prefix *)
+Lemma frozen_log_has s l t0 i e :
+  SInv s -> linv s l -> l <> [] ->
+  nth_error (L s t0) i = Some e -> fst e = t0 ->
+  (t0 <= lastT l)%N ->
+  (lastT l = t0 -> (S i <= length l)%nat) ->
+  (active (sg s) (lastT l) = true -> (t0 < lastT l)%N -> agree (S i) (L s (lastT l)) (L s t0)) ->
+  agree (S i) l (L s t0).
+Proof.
+  intros I LI NE HN FE LE LEN D.
+  destruct (lastT_nth l NE) as [e' [H' E']].
+  destruct (LI _ _ H') as [AC AG].
+  assert (LP : (0 < length l)%nat) by (destruct l; [contradiction|cbn; lia]).
+  replace (S (length l - 1)) with (length l) in AG by lia.
+  rewrite <- E' in *.
+  destruct (N.eq_dec (lastT l) t0) as [EQ|NEQ].
+  - rewrite EQ in AG. eapply agree_le; [|exact AG]. apply LEN. exact EQ.
+  - assert (LT : (t0 < lastT l)%N) by lia.
+    pose proof (D AC LT) as D'.
+    assert (SL : (S i <= length l)%nat).
+    { destruct (Nat.le_gt_cases (S i) (length l)) as [Q|Q]; [exact Q|exfalso].
+      assert (N1 : nth_error (L s (lastT l)) (length l - 1) = Some e').
+      { rewrite <- (agree_nth _ _ _ (length l - 1)%nat AG) by lia. exact H'. }
+      assert (N2 : nth_error (L s (lastT l)) i = Some e).
+      { rewrite (agree_nth _ _ _ i D') by lia. exact HN. }
+      pose proof (proj1 (i2 s I (KLead (lastT l))) (length l - 1)%nat i e' e ltac:(lia) N1 N2) as MM.
+      rewrite <- E' in MM. lia. }
+    eapply agree_trans; [|exact D']. eapply agree_le; [|exact AG]. exact SL.
+Qed.
+
+Lemma below_lastT b l : l <> [] -> below b l -> (lastT l < b)%N.
+Proof.
+  intros NE B. destruct (lastT_nth l NE) as [e [H E]]. rewrite E. apply B. eapply nth_error_In. exact H.
+Qed.
+
+(* a vote of term [vr_term r] by a node that acknowledged position i of leadership t0 < that
+   term: if every leadership strictly between carries the entry, so does the candidate's log *)
+Lemma vote_carries s r q t0 k i e :
+  SInv s -> In r (votes s) -> In (q, t0, k) (acks s) -> q = vr_voter r -> (i < k)%nat ->
+  (t0 < vr_term r)%N -> nth_error (L s t0) i = Some e -> fst e = t0 ->
+  (forall s', active (sg s) s' = true -> (t0 < s')%N -> (s' < vr_term r)%N -> agree (S i) (L s s') (L s t0)) ->
+  agree (S i) (vr_clog r) (L s t0).
+Proof.
+  intros I INR INA EQ LK LT HN FE D.
+  assert (VL : agree (S i) (vr_vlog r) (L s t0)) by exact (i11 s I r q t0 k i INR INA EQ LT LK D).
+  destruct (i8 s I r INR) as (LC & LV & MC & MV & BC & BV & U).
+  assert (NV : nth_error (vr_vlog r) i = Some e) by (rewrite (agree_nth _ _ _ i VL) by lia; exact HN).
+  assert (T0 : (t0 <= lastT (vr_vlog r))%N) by (rewrite <- FE; eapply mono_lastT; eassumption).
+  assert (LV' : (S i <= length (vr_vlog r))%nat) by (apply nth_error_Some_lt in NV; lia).
+  assert (NE : vr_clog r <> []).
+  { destruct U as [U|[U1 U2]]; intro X; rewrite X in *; [rewrite lastT_nil in U; lia|cbn in U2; lia]. }
+  pose proof (below_lastT _ _ NE BC) as BL.
+  apply (frozen_log_has s (vr_clog r) t0 i e I LC NE HN FE).
+  - destruct U as [U|[U1 U2]]; lia.
+  - intro X. destruct U as [U|[U1 U2]]; lia.
+  - intros AS L1. exact (D _ AS L1 BL).
+Qed.
+
+Lemma acked_voted_meet s t0 i t c :
+  majority (acked s t0 i) -> majority (voted_for s t c) ->
+  exists q k r, In (q, t0, k) (acks s) /\ (i < k)%nat /\ In r (votes s) /\ vr_voter r = q /\ vr_term r = t /\ vr_cand r = c.
+Proof.
+  intros MA Hm.
+  destruct (majority_meet _ _ MA Hm) as [q [QA QV]].
+  unfold acked in QA. apply existsb_exists in QA. destruct QA as [[[n t'] k] [INA QA]].
+  apply andb_true_iff in QA. destruct QA as [QA LK]. apply andb_true_iff in QA. destruct QA as [E1 E2].
+  apply N.eqb_eq in E1. apply N.eqb_eq in E2. apply Nat.ltb_lt in LK. subst n t'.
+  unfold voted_for in QV. apply existsb_exists in QV. destruct QV as [r [INR QV]].
+  apply andb_true_iff in QV. destruct QV as [QV E3]. apply andb_true_iff in QV. destruct QV as [E4 E5].
+  apply N.eqb_eq in E3. apply N.eqb_eq in E4. apply N.eqb_eq in E5.
+  exists q, k, r. auto 10.
+Qed.
+
+Lemma cand_has_committed s c t i e t0 :
+  SInv s -> tm s c = t -> active (sg s) t = false -> majority (voted_for s t c) ->
+  In (i, e, t0) (commits s) -> (t0 < t)%N -> agree (S i) (nlog s c) (L s t0).
+Proof.
+  intros I Hc Ha Hm HC LT.
+  destruct (i13 s I _ _ _ HC) as (A0 & HN & FE & MA & D).
+  destruct (acked_voted_meet s t0 i t c MA Hm) as (q & k & r & INA & LK & INR & E4 & E5 & E3).
+  assert (CL : nlog s c = vr_clog r).
+  { rewrite <- E3. apply (i6 s I r INR); [rewrite E3, E5; exact Hc|rewrite E5; exact Ha]. }
+  rewrite CL.
+  apply (vote_carries s r q t0 k i e I INR INA (eq_sym E4) LK); try assumption; [rewrite E5; exact LT|].
+  intros s' AS L1 _. exact (D s' AS L1).
+Qed.
+
+Lemma pres_become_leader s c t :
+  SInv s ->
+  tm s c = t -> active (sg s) t = false -> majority (voted_for s t c) ->
+  SInv (mkS (mkG (upd (logs (sg s)) (KLead t) (nlog s c)) (fun t' => if N.eqb t' t then true else active (sg s) t'))
+            (tm s) (votes s) (acks s) (updN (acc s) c (t :: acc s c)) (updN (ldr s) t (Some c)) (commits s)).
+Proof.
+  intros I Hc Ha Hm.
+  set (lg := upd (logs (sg s)) (KLead t) (nlog s c)).
+  set (ac := fun t' => if N.eqb t' t then true else active (sg s) t').
+  assert (G : gstep (sg s) (mkG lg ac)) by (apply (BecomeLeader (sg s) c t Ha)).
+  assert (LT : lg (KLead t) = nlog s c) by apply upd_same.
+  assert (LO : forall t', t' <> t -> lg (KLead t') = L s t') by (intros t' NE; apply upd_other; congruence).
+  assert (NL : forall n, lg (KNode n) = nlog s n) by (intros n; apply upd_other; discriminate).
+  assert (AT : ac t = true) by (unfold ac; rewrite N.eqb_refl; reflexivity).
+  assert (AO : forall t', t' <> t -> ac t' = active (sg s) t').
+  { intros t' NE. unfold ac. destruct (N.eqb_spec t' t); [contradiction|reflexivity]. }
+  assert (AM : forall t', active (sg s) t' = true -> ac t' = true /\ t' <> t).
+  { intros t' H. assert (t' <> t) by (intro X; subst; congruence). rewrite AO by assumption. auto. }
+  assert (ACT : forall t', ac t' = true -> t' <> t -> active (sg s) t' = true).
+  { intros t' H NE. rewrite AO in H by exact NE. exact H. }
+  assert (LN : ldr s t = None).
+  { destruct (ldr s t) as [c'|] eqn:E; [|reflexivity]. destruct (i3a s I _ _ E) as [A _]. congruence. }
+  constructor; unfold L, nlog; cbn [sg tm votes acks acc ldr commits logs active]; fold lg; fold ac.
+  - eapply inv_step; [exact (i1 s I)|exact G].
+  - intros k. destruct k as [n|t']; cbn [kbound tm].
+    + rewrite NL. exact (i2 s I (KNode n)).
+    + destruct (N.eq_dec t' t) as [->|NE].
+      * rewrite LT. rewrite <- Hc. exact (i2 s I (KNode c)).
+      * rewrite (LO _ NE). exact (i2 s I (KLead t')).
+  - intros t' c' H. destruct (N.eq_dec t' t) as [->|NE].
+    + rewrite updN_same in H. inversion H; subst c'. refine (conj AT (conj Hm _)). lia.
+    + rewrite (updN_other _ _ _ _ NE) in H. destruct (i3a s I _ _ H) as (A & M & T).
+      refine (conj _ (conj M T)). apply AM. exact A.
+  - intros t' H. destruct (N.eq_dec t' t) as [->|NE].
+    + exists c. apply updN_same.
+    + rewrite (updN_other _ _ _ _ NE). apply (i3b s I). apply ACT; assumption.
+  - exact (i4 s I).
+  - exact (i5 s I).
+  - intros r H T A. rewrite NL. apply (i6 s I r H T).
+    destruct (N.eq_dec (vr_term r) t) as [E|NE]; [rewrite E in A; congruence|]. rewrite AO in A by exact NE. exact A.
+  - intros r H LD. destruct (N.eq_dec (vr_term r) t) as [E|NE].
+    + rewrite E in *. rewrite updN_same in LD. inversion LD as [EC].
+      rewrite LT. assert (CL : nlog s c = vr_clog r).
+      { rewrite EC. apply (i6 s I r H); [rewrite <- EC, E; exact Hc|rewrite E; exact Ha]. }
+      rewrite CL. split; [apply agree_refl|lia].
+    + rewrite (updN_other _ _ _ _ NE) in LD. rewrite (LO _ NE). exact (i7 s I r H LD).
+  - intros r H. destruct (i8 s I r H) as (A & B & C). refine (conj _ (conj _ C)).
+    + intros i e Hi. destruct (A i e Hi) as [A1 A2]. unfold L; cbn [sg logs active]; fold lg; fold ac.
+      destruct (AM _ A1) as [X Y]. rewrite (LO _ Y). split; assumption.
+    + intros i e Hi. destruct (B i e Hi) as [A1 A2]. unfold L; cbn [sg logs active]; fold lg; fold ac.
+      destruct (AM _ A1) as [X Y]. rewrite (LO _ Y). split; assumption.
+  - intros m t' k H. destruct (i9 s I _ _ _ H) as (A & B & C). destruct (AM _ B) as [X Y].
+    rewrite (LO _ Y). repeat split; assumption.
+  - intros m t0 k i H LK P. rewrite NL.
+    destruct (i9 s I _ _ _ H) as (A & B & C). destruct (AM _ B) as [X Y]. rewrite (LO _ Y).
+    apply (i10 s I m t0 k i H LK). intros s' IN LT0.
+    destruct (i12 s I _ _ IN) as [AS _]. destruct (AM _ AS) as [X' Y'].
+    assert (IN' : In s' (updN (acc s) c (t :: acc s c) m)).
+    { destruct (N.eq_dec m c) as [->|NE]; [rewrite updN_same; right; exact IN|rewrite (updN_other _ _ _ _ NE); exact IN]. }
+    specialize (P s' IN' LT0). rewrite (LO _ Y'), (LO _ Y) in P. exact P.
+  - intros r m t0 k i H HA EM LT0 LK P.
+    destruct (i9 s I _ _ _ HA) as (A & B & C). destruct (AM _ B) as [X Y]. rewrite (LO _ Y).
+    apply (i11 s I r m t0 k i H HA EM LT0 LK). intros s' AS L1 L2.
+    destruct (AM _ AS) as [X' Y']. specialize (P s' X' L1 L2). rewrite (LO _ Y'), (LO _ Y) in P. exact P.
+  - intros n s' H. destruct (N.eq_dec n c) as [->|NE].
+    + rewrite updN_same in H. destruct H as [E|H]; [subst s'; split; [exact AT|lia]|].
+      destruct (i12 s I _ _ H) as [A B]. split; [apply AM; exact A|exact B].
+    + rewrite (updN_other _ _ _ _ NE) in H. destruct (i12 s I _ _ H) as [A B]. split; [apply AM; exact A|exact B].
+  - intros i e t0 H. destruct (i13 s I _ _ _ H) as (A & B & C & M & D).
+    destruct (AM _ A) as [X Y]. rewrite (LO _ Y).
+    refine (conj X (conj B (conj C (conj M _)))).
+    intros s' AS LT0. destruct (N.eq_dec s' t) as [->|NE].
+    + rewrite LT. exact (cand_has_committed s c t i e t0 I Hc Ha Hm H LT0).
+    + rewrite (LO _ NE). apply D; [apply ACT; assumption|exact LT0].
+Qed.
+
+
+(* committing: every later leadership carries the entry (induction over the later terms) *)
+Lemma commit_carried s t i e :
+  SInv s -> active (sg s) t = true -> nth_error (L s t) i = Some e -> fst e = t -> majority (acked s t i) ->
+  forall s', active (sg s) s' = true -> (t < s')%N -> agree (S i) (L s s') (L s t).
+Proof.
+  intros I Ha HN FE MA.
+  assert (STRONG : forall n s', (N.to_nat s' < n)%nat -> active (sg s) s' = true -> (t < s')%N -> agree (S i) (L s s') (L s t)).
+  { induction n as [|n IH]; intros s' B AS LT; [lia|].
+    destruct (i3b s I _ AS) as [c' LD].
+    destruct (i3a s I _ _ LD) as (_ & MV & _).
+    destruct (acked_voted_meet s t i s' c' MA MV) as (q & k & r & INA & LK & INR & E4 & E5 & E3).
+    assert (CA : agree (S i) (vr_clog r) (L s t)).
+    { apply (vote_carries s r q t k i e I INR INA (eq_sym E4) LK); try assumption; [rewrite E5; exact LT|].
+      intros s'' AS' L1 L2. apply IH; [rewrite E5 in L2; lia|exact AS'|exact L1]. }
+    assert (LD' : ldr s (vr_term r) = Some (vr_cand r)) by (rewrite E5, E3; exact LD).
+    destruct (i7 s I r INR LD') as [A7 L7]. rewrite E5 in A7.
+    assert (LEN : (S i <= length (vr_clog r))%nat).
+    { apply agree_sym in CA. apply (agree_len _ _ _ CA). apply nth_error_Some_lt in HN. lia. }
+    eapply agree_trans; [|exact CA]. apply agree_sym. eapply agree_le; [|exact A7]. exact LEN. }
+  intros s' AS LT. apply (STRONG (S (N.to_nat s')) s'); [lia|exact AS|exact LT].
+Qed.
+
+Lemma pres_commit s t i e :
+  SInv s -> active (sg s) t = true -> nth_error (L s t) i = Some e -> fst e = t -> majority (acked s t i) ->
+  SInv (mkS (sg s) (tm s) (votes s) (acks s) (acc s) (ldr s) ((i, e, t) :: commits s)).
+Proof.
+  intros I Ha HN FE MA. constructor; cbn.
+  - exact (i1 s I).
+  - exact (i2 s I).
+  - exact (i3a s I).
+  - exact (i3b s I).
+  - exact (i4 s I).
+  - exact (i5 s I).
+  - exact (i6 s I).
+  - exact (i7 s I).
+  - exact (i8 s I).
+  - exact (i9 s I).
+  - exact (i10 s I).
+  - exact (i11 s I).
+  - exact (i12 s I).
+  - intros i' e' t' [E|H]; [|exact (i13 s I _ _ _ H)]. inversion E; subst i' e' t'.
+    refine (conj Ha (conj HN (conj FE (conj MA _)))). exact (commit_carried s t i e I Ha HN FE MA).
+Qed.
+
+Theorem sinv_step s s' : SInv s -> sstep s s' -> SInv s'.
+Proof.
+  intros I H.
+  destruct H as [s c t Ht | s v t c Hv Hc Ha Hu Hutd | s c t g' Hc Ha Hm Hg Eg
+                | s c t x g' Hc Hl Ha Hn Eg | s m t prev cnt pt g' Hm Ha P1 P2 Eg
+                | s m t k Hm Ha Hag Hk | s t i e Ha Hn He Hm].
+  - apply pres_campaign; assumption.
+  - apply pres_vote; assumption.
+  - subst g'. apply pres_become_leader; assumption.
+  - subst g'. apply pres_leader_append; assumption.
+  - subst g'. eapply pres_follower_append; eassumption.
+  - apply pres_ack; assumption.
+  - apply pres_commit; assumption.
+Qed.
+
+Theorem sreach_sinv s : sreach s -> SInv s.
+Proof. induction 1 as [s I|s s' R IH S]; [apply sinv_init; exact I|eapply sinv_step; eassumption]. Qed.
+
+
+(* ---------- Leader Completeness and State Machine Safety ---------- *)
+
+(* position j holds the committed value x: some leadership t committed a position i >= j of its
+   log (an entry of its own term, acknowledged by a majority), and x is what that log holds at j *)
+Definition cval (s : sstate) (j : nat) (x : aent) : Prop :=
+  exists i e t, In (i, e, t) (commits s) /\ (j <= i)%nat /\ nth_error (L s t) j = Some x.
+
+(* what a node may treat as committed (and hand to the state machine): position j, on the
+   authority of leadership t <= its term that committed some i >= j, when its own log agrees
+   with that leadership's log through j *)
+Definition can_learn (s : sstate) (m : N) (j : nat) (t : N) : Prop :=
+  exists i e, In (i, e, t) (commits s) /\ (j <= i)%nat /\ (t <= tm s m)%N /\ agree (S j) (nlog s m) (L s t).
+
+Theorem leader_completeness s i e t :
+  SInv s -> In (i, e, t) (commits s) ->
+  forall t' j x, active (sg s) t' = true -> (t < t')%N -> (j <= i)%nat ->
+    nth_error (L s t) j = Some x -> nth_error (L s t') j = Some x.
+Proof.
+  intros I HC t' j x AS LT LE HN. destruct (i13 s I _ _ _ HC) as (_ & _ & _ & _ & D).
+  rewrite (agree_nth _ _ _ j (D t' AS LT)) by lia. exact HN.
+Qed.
+
+Theorem cval_unique s j x y : SInv s -> cval s j x -> cval s j y -> x = y.
+Proof.
+  intros I (i1 & e1 & t1 & C1 & L1 & N1) (i2 & e2 & t2 & C2 & L2 & N2).
+  destruct (i13 s I _ _ _ C1) as (A1 & _). destruct (i13 s I _ _ _ C2) as (A2 & _).
+  destruct (N.lt_trichotomy t1 t2) as [LT|[EQ|LT]].
+  - pose proof (leader_completeness s i1 e1 t1 I C1 t2 j x A2 LT L1 N1) as H. congruence.
+  - subst t2. congruence.
+  - pose proof (leader_completeness s i2 e2 t2 I C2 t1 j y A1 LT L2 N2) as H. congruence.
+Qed.
+
+Lemma can_learn_cval s m j t : SInv s -> can_learn s m j t ->
+  exists x, nth_error (nlog s m) j = Some x /\ cval s j x.
+Proof.
+  intros I (i & e & HC & LE & LT & AG).
+  destruct (i13 s I _ _ _ HC) as (_ & HN & _).
+  assert (LJ : (j < length (L s t))%nat) by (apply nth_error_Some_lt in HN; lia).
+  destruct (nth_error (L s t) j) as [x|] eqn:NJ; [|apply nth_error_None in NJ; lia].
+  exists x. split; [rewrite (agree_nth _ _ _ j AG) by lia; exact NJ|]. exists i, e, t. auto.
+Qed.
+
+(* the log of an active leadership only grows *)
+Lemma L_stable s s' t j x :
+  SInv s -> sstep s s' -> active (sg s) t = true -> nth_error (L s t) j = Some x -> nth_error (L s' t) j = Some x.
+Proof.
+  intros I H AT HN.
+  destruct H as [s c t1 Ht | s v t1 c Hv Hc Ha Hu Hutd | s c t1 g' Hc Ha Hm Hg Eg
+                | s c t1 x1 g' Hc Hl Ha Hn Eg | s m t1 prev cnt pt g' Hm Ha P1 P2 Eg
+                | s m t1 k Hm Ha Hag Hk | s t1 i e Ha Hn He Hm]; unfold L in *; cbn [sg logs]; try exact HN.
+  - subst g'. cbn [logs]. rewrite upd_other; [exact HN|]. intro X. inversion X; subst. congruence.
+  - subst g'. cbn [logs]. rewrite upd_other by discriminate.
+    destruct (N.eq_dec t t1) as [->|NE]; [|rewrite upd_other by congruence; exact HN].
+    rewrite upd_same. rewrite nth_error_app1 by (apply nth_error_Some_lt in HN; exact HN). exact HN.
+  - subst g'. cbn [logs]. rewrite upd_other by discriminate. exact HN.
+Qed.
+
+Lemma commits_stable s s' c : sstep s s' -> In c (commits s) -> In c (commits s').
+Proof. intros H HC. destruct H; cbn [commits]; try exact HC. right. exact HC. Qed.
+
+Lemma tm_stable s s' n : sstep s s' -> (tm s n <= tm s' n)%N.
+Proof.
+  intros H. destruct H; cbn [tm]; try lia; apply updN_ge; lia.
+Qed.
+
+Theorem cval_stable s s' j x : SInv s -> sstep s s' -> cval s j x -> cval s' j x.
+Proof.
+  intros I H (i & e & t & HC & LE & HN). destruct (i13 s I _ _ _ HC) as (AT & _).
+  exists i, e, t. split; [eapply commits_stable; eassumption|]. split; [exact LE|]. eapply L_stable; eassumption.
+Qed.
+
+(* a node never loses or replaces what it may treat as committed *)
+Theorem can_learn_stable s s' m j t : SInv s -> sstep s s' -> can_learn s m j t -> can_learn s' m j t.
+Proof.
+  intros I H (i & e & HC & LE & LT & AG).
+  pose proof (commits_stable s s' _ H HC) as HC'. pose proof (tm_stable s s' m H) as TM'.
+  exists i, e. refine (conj HC' (conj LE (conj (N.le_trans _ _ _ LT TM') _))).
+  destruct (i13 s I _ _ _ HC) as (AT & HN & FE & MA & D).
+  assert (LJ : (S j <= length (L s t))%nat) by (apply nth_error_Some_lt in HN; lia).
+  assert (LM : (S j <= length (nlog s m))%nat) by (apply agree_sym in AG; apply (agree_len _ _ _ AG); exact LJ).
+  clear HC' TM'.
+  destruct H as [s c t1 Ht | s v t1 c Hv Hc Ha Hu Hutd | s c t1 g' Hc Ha Hm Hg Eg
+                | s c t1 x1 g' Hc Hl Ha Hn Eg | s m1 t1 prev cnt pt g' Hm Ha P1 P2 Eg
+                | s m1 t1 k Hm Ha Hag Hk | s t1 i1 e1 Ha Hn He Hm]; unfold L, nlog in *; cbn [sg logs]; try exact AG.
+  - subst g'. cbn [logs]. rewrite (upd_other _ _ _ (KNode m)) by discriminate.
+    rewrite upd_other; [exact AG|]. intro X. inversion X; subst. congruence.
+  - subst g'. cbn [logs].
+    assert (R : agree (S j) (logs (sg s) (KNode m))
+                  (upd (upd (logs (sg s)) (KLead t1) (logs (sg s) (KLead t1) ++ [(t1, x1)])) (KNode c)
+                       (logs (sg s) (KLead t1) ++ [(t1, x1)]) (KLead t))).
+    { rewrite upd_other by discriminate.
+      destruct (N.eq_dec t t1) as [->|NE]; [rewrite upd_same; apply agree_app_r; assumption|rewrite upd_other by congruence; exact AG]. }
+    destruct (N.eq_dec m c) as [->|NE].
+    + rewrite upd_same. apply agree_grow_l; [|apply (agree_len _ _ _ R); exact LM].
+      rewrite Hn in R. exact R.
+    + rewrite (upd_other _ _ _ (KNode m)) by congruence. rewrite (upd_other _ _ _ (KNode m)) by discriminate. exact R.
+  - subst g'. cbn [logs]. rewrite (upd_other _ _ _ (KLead t)) by discriminate.
+    destruct (N.eq_dec m m1) as [->|NE]; [|rewrite upd_other by congruence; exact AG].
+    rewrite upd_same.
+    assert (AT2 : agree (S j) (logs (sg s) (KLead t1)) (logs (sg s) (KLead t))).
+    { destruct (N.eq_dec t1 t) as [->|NT]; [apply agree_refl|].
+      eapply agree_le; [|apply (D t1 Ha); lia]. lia. }
+    exact (fappend_keeps (sg s) (KNode m1) t1 prev cnt pt _ j (i1 s I) P1 P2 AG AT2 LM).
+Qed.
+
+(* ---------- executions: protocol steps interleaved with nodes learning commits ---------- *)
+
+Definition astate := (sstate * list (N * nat * aent))%type.   (* (node, position, value handed to the state machine) *)
+
+Inductive astep : astate -> astate -> Prop :=
+| AProto s s' ap : sstep s s' -> astep (s, ap) (s', ap)
+| AApply s ap m j t x : can_learn s m j t -> nth_error (nlog s m) j = Some x -> astep (s, ap) (s, (m, j, x) :: ap).
+
+Inductive areach : astate -> Prop :=
+| areach_init s : sinit s -> areach (s, [])
+| areach_step p p' : areach p -> astep p p' -> areach p'.
+
+Definition AInv (p : astate) : Prop :=
+  SInv (fst p) /\ forall m j x, In (m, j, x) (snd p) -> cval (fst p) j x.
+
+Lemma areach_ainv p : areach p -> AInv p.
+Proof.
+  induction 1 as [s I|p p' R [IS IA] S].
+  - split; [apply sinv_init; exact I|intros m j x []].
+  - destruct S as [s s' ap S|s ap m j t x CL HN]; cbn [fst snd] in *.
+    + split; [eapply sinv_step; eassumption|]. intros m j x H. eapply cval_stable; [exact IS|exact S|]. eapply IA. exact H.
+    + split; [exact IS|]. intros m' j' x' [E|H]; [|eapply IA; exact H]. inversion E; subst m' j' x'.
+      destruct (can_learn_cval s m j t IS CL) as [y [NY CV]]. rewrite HN in NY. inversion NY; subst y. exact CV.
+Qed.
+
+(* State Machine Safety, over whole executions: whatever any two nodes ever handed to their
+   state machines at the same position, at any two moments of any execution, is the same entry *)
+Theorem state_machine_safety p m1 m2 j x y :
+  areach p -> In (m1, j, x) (snd p) -> In (m2, j, y) (snd p) -> x = y.
+Proof.
+  intros R H1 H2. destruct (areach_ainv p R) as [IS IA].
+  eapply cval_unique; [exact IS|eapply IA; exact H1|eapply IA; exact H2].
+Qed.
+
 End WithVoters.
